@@ -13,7 +13,7 @@ import cli
 from impl import trees, treeinput, transform, quiet, mk_leaf, mk_node
 
 ID = "C01"
-MODULE = ['TT.Props.C01', 'TT.Props.C01More']
+MODULE = ['TT.Props.C01', 'TT.Props.C01More', 'TT.Props.C01Readers', 'TT.Props.C01Disco']
 RULE = ("corpora of 1..4 sentences written by a grammar-directed encoder with random layout: brackets (every whitespace "
         "layout, empty/explicit root label, junk between groups), discobrackets, export v3/v4 (headers, comment and "
         "secondary-edge columns, arbitrary consistent 5xx numbering, lines in any order), TIGER-XML (attribute and <nt> "
@@ -112,7 +112,29 @@ def run_reader(fmt, path, opts):
         return proto.err_name(e)
 
 
+DECOYS = {"br": ("brackets", "(S (A decoy))\n"),
+          "export": ("export", "#BOS 1\ndecoy\t\t\tNN\t--\t\t--\t0\n#EOS 1\n"),
+          "xml": ("tigerxml", "<?xml version='1.0' encoding='utf-8'?>\n<corpus>\n<body>\n<s id=\"s1\">\n<graph root=\"s1_500\">\n<terminals>\n"
+                              "<t id=\"s1_1\" word=\"decoy\" lemma=\"--\" pos=\"NN\" morph=\"--\" />\n</terminals>\n<nonterminals>\n"
+                              "<nt id=\"s1_500\" cat=\"VROOT\">\n<edge label=\"--\" idref=\"s1_1\" />\n</nt>\n</nonterminals>\n</graph>\n</s>\n</body>\n</corpus>\n")}
+
+
 def write_file(sc, name, text, gz):
+    if isinstance(sc, cli.SamePlace):
+        # the file is written TWICE under the same name: first another treebank, which is read; then the one this case
+        # is about.  What is read second must not depend on what was there before.
+        fmt, decoy = DECOYS.get(name.rsplit(".", 1)[-1], (None, None))
+        if fmt is not None:
+            p0 = _write_file(sc, name, decoy, gz)
+            try:
+                with quiet():
+                    list(getattr(treeinput, fmt)(p0, "utf-8", quiet=True))
+            except Exception:
+                pass
+    return _write_file(sc, name, text, gz)
+
+
+def _write_file(sc, name, text, gz):
     if gz:
         p = sc.path(name + ".gz")
         with gzip.open(p, "wb") as f:
@@ -174,7 +196,7 @@ def brackets_case(rng):
     if not disco and not text.endswith(("\n", " ")):
         text += ""
     gz = rng.random() < 0.15
-    with cli.Scratch() as sc:
+    with (cli.SamePlace() if rng.random() < 0.5 else cli.Scratch()) as sc:
         p = write_file(sc, "f.br", text, gz)
         out = run_reader(fmt, p, opts)
     mopts = dict(opts)
@@ -234,7 +256,7 @@ def export_case(rng):
             text += "\n"
         corpus.append(((i + 1) if 'continuous' in opts else sid, t))
     gz = rng.random() < 0.15
-    with cli.Scratch() as sc:
+    with (cli.SamePlace() if rng.random() < 0.5 else cli.Scratch()) as sc:
         p = write_file(sc, "f.export", text, gz)
         out = run_reader("export", p, opts)
     lines = [Line("corr", "read_export", [proto.enc_opts(opts), proto.enc_s(text)], out),
@@ -322,7 +344,7 @@ def tiger_case(rng):
                                  "+".join("%s=%s" % (enc_os(e.get('label')), proto.enc_s(e.get('idref'))) for e in n.findall('edge'))])
                        for n in g.find('nonterminals').findall('nt'))
         xs.append("^".join([proto.enc_s(s.get('id')), terms, nts]))
-    with cli.Scratch() as sc:
+    with (cli.SamePlace() if rng.random() < 0.5 else cli.Scratch()) as sc:
         p = sc.write("f.xml", text)
         out = run_reader("tigerxml", p, opts)
     lines = [Line("corr", "read_tigerxml", [proto.enc_opts(opts), "|".join(xs)], out),
